@@ -32,7 +32,7 @@ func verifRoundTrip(t encoders.Type) {
 	w := v.NewMemRWSC(nil)
 	nw, err := e.Compress(data, scratch, w)
 	v.Assert(err == nil, "compression of any input with any scratch buffer succeeds")
-	v.Assert(nw == len(w.Data), "reported byte count equals the bytes emitted")
+	v.Assert(nw == w.Size(), "reported byte count equals the bytes emitted")
 	v.Assert(v.EqBytes(data, orig[:n]), "input not modified")
 	v.Reach("compressed")
 	if nw == 0 {
@@ -73,5 +73,5 @@ func VerifC07_DecompressFirst() {
 	w2 := v.NewMemRWSC(nil)
 	nw2, err := e2.Compress(data, nil, w2) // ... and compresses afterwards
 	v.Reach("decompress-then-compress")
-	v.Assert(err == nil && nw2 == len(w2.Data) && nw2 > 0, "compression after decompression on the same instance works")
+	v.Assert(err == nil && nw2 == w2.Size() && nw2 > 0, "compression after decompression on the same instance works")
 }
